@@ -169,7 +169,10 @@ def r2(rr, repo):
                 f_ok = isinstance(first, ast.BoolOp) and isinstance(first.op, ast.And) and len(first.values) == 2 and \
                     isinstance(first.values[1], ast.BoolOp) and isinstance(first.values[1].op, ast.Or) and \
                     sorted(U(x)[-6:] for x in first.values[1].values) == sorted([f'[1][{i_req}]', f'[1][{i_eph}]'])
-                s_ok = isinstance(second, ast.BinOp) and isinstance(second.op, ast.Add) and U(second.right).endswith(f'[1][{i_req}]')
+                # the counted term is the client's requested mark, possibly restricted to synchronized clients (`requested and not ephemeral`, C05.R10)
+                term = second.right if isinstance(second, ast.BinOp) and isinstance(second.op, ast.Add) else None
+                s_ok = term is not None and (U(term).endswith(f'[1][{i_req}]') or (isinstance(term, ast.BoolOp) and isinstance(term.op, ast.And) and any(U(x).endswith(f'[1][{i_req}]') for x in term.values) and
+                                                                                  all(U(x).endswith(f'[1][{i_req}]') or (isinstance(x, ast.UnaryOp) and isinstance(x.op, ast.Not) and U(x.operand).endswith(f'[1][{i_eph}]')) for x in term.values)))
                 rr.ob('balanced: an output may send only while all its clients are requested-or-ephemeral (out_do_send and (requested or ephemeral))', f_ok, za.mod, st[-1].node, witness=U(first)[-160:], key='bal-do-send')
                 rr.ob('balanced: the number of requested clients of the output is counted (out_nrequested + requested)', s_ok, za.mod, st[-1].node, witness=U(second)[-120:], key='bal-nrequested')
             else:
@@ -520,3 +523,32 @@ def r9(rr, repo):
 def _last_truth(p, term):
     v = [val for k, val in p.pc if k == f'truthy({term}())']
     return v[-1] if v else None
+
+
+@rule('C04.R10', "waiting for one source does not pump another: while recv() waits, its repeated request re-arms a publisher ('requested' goes up on EVERY request, C04.R1), so a request that goes to a source whose set for "
+                 "the current id is already complete makes that source publish a further frame per poll interval for as long as a slower sibling source is awaited - the request is withheld from complete sources, or "
+                 "marked so that the publisher does not count it (and the publisher honours the mark)")
+def r10(rr, repo):
+    za = anchors(repo)
+    sends = [c for c in q.calls_in(za.R_req) if isinstance(c.func, ast.Attribute) and c.func.attr == 'send_push']
+    rr.floor('request sends in recv().request', len(sends), 1, za.mod, za.R_req)
+    req = U(sends[0].args[0]) if sends and sends[0].args else 'msg_req'
+    done = lambda t: any(isinstance(x, ast.Attribute) and x.attr in ('got_all', 'got') for x in ast.walk(t)) or 'recvd' in U(t)
+    for c in sends:
+        withheld = any(done(t) for t, pol in q.guards_of(c, stop=za.R_req))
+        marks = [n for n in walk_scope(za.R_req) if isinstance(n, ast.Assign) and isinstance(n.targets[0], ast.Subscript) and U(n.targets[0].value) == req and q.const_str(n.targets[0].slice)
+                 and any(done(t) for t, pol in q.guards_of(n, stop=za.R_req))]
+        honoured = []
+        for m in marks:
+            key = q.const_str(m.targets[0].slice)
+            reads = [x for x in ast.walk(za.S_poll) if (isinstance(x, ast.Subscript) and U(x.value) == za.s_env and q.const_str(x.slice) == key) or
+                     (isinstance(x, ast.Call) and U(x.func) == f'{za.s_env}.get' and x.args and q.const_str(x.args[0]) == key)]
+            if reads:
+                honoured.append(key)
+        rr.ob("the repeated request spares a source whose set is already complete (not sent to it, or sent with a mark the publisher reads)", withheld or bool(honoured), za.mod, c,
+              witness=f'{U(c)} under [{" && ".join(U(t) for t, _ in q.guards_of(c, stop=za.R_req)) or "no condition"}]; marks set for complete sources: {[q.const_str(m.targets[0].slice) for m in marks] or "none"}; read by the publisher: {honoured or "none"}',
+              key='rearm-complete-source')
+    # the waiting loop really repeats the request every poll interval (so the pumping is per interval, not once)
+    loop = [n for n in walk_scope(za.R_recv) if isinstance(n, ast.While)]
+    rep = [c for n in loop for c in q.calls_in(n, into_functions=False) if U(c.func) == 'request']
+    rr.floor('request() calls inside the waiting loop of recv()', len(rep), 1, za.mod, za.R_recv)
